@@ -5,16 +5,19 @@ open C28
 
 /-! Line protocol of the C28 model.
 
-stmt  := skip | b0 | b1 | exit | cycle | ret | (goto n) | (label n) | (start v) | (stop v)
-       | (if BLOCK BLOCK) | (do BLOCK) | (reg v kind name BLOCK)
+stmt  := skip | b0 | b1 | (exit n) | (cycle n) | ret | retcb | (goto n) | (label n) | (start v) | (stop v)
+       | (if BLOCK BLOCK) | (do psy BLOCK) | (dir d BLOCK) | (reg v kind name BLOCK)
 BLOCK := (b stmt ...)            kind := 0 profile | 1 extract | 2 nanTest | 3 readOnly
-name  := - | (m r)
-frame := (pre-stmts  how  post-stmts)  with how := (if0 ELSE-BLOCK) | (if1 THEN-BLOCK) | do | (reg v kind name)
+name  := - | (m r)               psy := 0 | 1 (a PSyIR Loop node)
+d     := 0 ompParallel | 1 ompDo | 2 ompParallelDo | 3 accParallel | 4 accLoop | 5 accKernels
+frame := (pre-stmts  how  post-stmts)
+         with how := (if0 ELSE-BLOCK) | (if1 THEN-BLOCK) | (do psy) | (dir d) | (reg v kind name)
+opts  := (typeCheck prefixOK nameOK)  (0/1 each)
 
 commands:
-  (validate kind (T ...) BLOCK)                         -> verdict
-  (apply (frame ...) (pre ...) (mid ...) (post ...) v kind name)
+  (apply (frame ...) (pre ...) (mid ...) (post ...) kind name opts clash)
                                                         -> (fixed-verdict pinned-verdict BLOCK-after-apply | -)
+  (gencode module ((name base) ...))                    -> (gname ...)
   (lower routine BLOCK)                                 -> (BLOCK-lowered (names ...))
   (explore BLOCK B D)                                   -> (ok runs) | (bad (oracle ...) (trace ...) outcome)
   (run BLOCK (oracle ...))                              -> ((trace ...) outcome)
@@ -24,8 +27,13 @@ commands:
 def kindOf : Nat → Option Kind
   | 0 => some .profile | 1 => some .extract | 2 => some .nanTest | 3 => some .readOnly | _ => none
 
-def kindNum : Kind → Nat
-  | .profile => 0 | .extract => 1 | .nanTest => 2 | .readOnly => 3
+def dirOf : Nat → Option Dir
+  | 0 => some .ompParallel | 1 => some .ompDo | 2 => some .ompParallelDo
+  | 3 => some .accParallel | 4 => some .accLoop | 5 => some .accKernels | _ => none
+
+def dirNum : Dir → Nat
+  | .ompParallel => 0 | .ompDo => 1 | .ompParallelDo => 2 | .accParallel => 3 | .accLoop => 4
+  | .accKernels => 5
 
 def parseName : Sexp → Option (Option (Nat × Nat))
   | .atom "-" => some none
@@ -43,15 +51,17 @@ partial def parseStmt : Sexp → Option Stmt
   | .atom "skip" => some .skip
   | .atom "b0" => some (.basic false)
   | .atom "b1" => some (.basic true)
-  | .atom "exit" => some .exit
-  | .atom "cycle" => some .cycle
-  | .atom "ret" => some .ret
+  | .list [.atom "exit", n] => n.nat?.map .exit
+  | .list [.atom "cycle", n] => n.nat?.map .cycle
+  | .atom "ret" => some (.ret false)
+  | .atom "retcb" => some (.ret true)
   | .list [.atom "goto", n] => n.nat?.map .goto
   | .list [.atom "label", n] => n.nat?.map .label
   | .list [.atom "start", n] => n.nat?.map (fun v => .emit (.start v))
   | .list [.atom "stop", n] => n.nat?.map (fun v => .emit (.stop v))
   | .list [.atom "if", a, b] => do pure (.ite (← parseBlock a) (← parseBlock b))
-  | .list [.atom "do", a] => do pure (.loop (← parseBlock a))
+  | .list [.atom "do", p, a] => do pure (.loop ((← p.nat?) != 0) (← parseBlock a))
+  | .list [.atom "dir", d, a] => do pure (.dir (← dirOf (← d.nat?)) (← parseBlock a))
   | .list [.atom "reg", v, k, n, a] => do pure (.region (← parseRInfo v k n) (← parseBlock a))
   | s@(.list (.atom "b" :: _)) => parseBlock s
   | _ => none
@@ -81,15 +91,17 @@ partial def pr : Stmt → String
   | .skip => "skip"
   | .basic false => "b0"
   | .basic true => "b1"
-  | .exit => "exit"
-  | .cycle => "cycle"
-  | .ret => "ret"
+  | .exit n => s!"(exit {n})"
+  | .cycle n => s!"(cycle {n})"
+  | .ret false => "ret"
+  | .ret true => "retcb"
   | .goto l => s!"(goto {l})"
   | .label l => s!"(label {l})"
   | .emit (.start v) => s!"(start {v})"
   | .emit (.stop v) => s!"(stop {v})"
   | .ite a b => s!"(if {blk a} {blk b})"
-  | .loop a => s!"(do {blk a})"
+  | .loop p a => s!"(do {if p then 1 else 0} {blk a})"
+  | .dir d a => s!"(dir {dirNum d} {blk a})"
   | .region r a => s!"(reg {r.var} {kindNum r.kind} {prName r.name} {blk a})"
   | s@(.seq _ _) => blk s
 partial def blk (s : Stmt) : String :=
@@ -98,6 +110,7 @@ end
 
 def prVerdict : Verdict → String
   | .ok => "ok" | .empty => "empty" | .transfer => "transfer" | .excluded => "excluded"
+  | .directive => "directive" | .option => "option" | .clash => "clash"
 
 /-- One frame: the hole's Schedule is a child of a compound statement that sits between `pre`
 and `post` in its own Schedule. -/
@@ -105,7 +118,8 @@ def frameCtx (pre : List Stmt) (how : Ctx → Ctx) (post : List Stmt) (inner : C
   pre.foldr (fun p c => Ctx.seqR p c) (Ctx.seqL (how inner) (seqs post))
 
 def parseHow : Sexp → Option (Ctx → Ctx)
-  | .atom "do" => some Ctx.loopB
+  | .list [.atom "do", p] => do let b ← p.nat?; pure (fun c => Ctx.loopB (b != 0) c)
+  | .list [.atom "dir", d] => do let dd ← dirOf (← d.nat?); pure (fun c => Ctx.dirB dd c)
   | .list [.atom "if0", e] => do let b ← parseBlock e; pure (fun c => Ctx.iteT c b)
   | .list [.atom "if1", t] => do let a ← parseBlock t; pure (fun c => Ctx.iteE a c)
   | .list [.atom "reg", v, k, n] => do let r ← parseRInfo v k n; pure (fun c => Ctx.regionB r c)
@@ -123,7 +137,8 @@ def prEv : Ev → String
   | .stop v => s!"(e {v})"
 
 def prOut : Out → String
-  | .normal => "normal" | .exiting => "exiting" | .cycling => "cycling" | .returning => "returning"
+  | .normal => "normal" | .exiting n => s!"(exiting {n})" | .cycling n => s!"(cycling {n})"
+  | .returning => "returning"
   | .jumping l => s!"(jumping {l})"
 
 def oracleOf (xs : Array Nat) : Nat → Nat := fun k => xs.getD k 0
@@ -157,19 +172,20 @@ def parseReq : Sexp → Option Req
   | _ => none
 
 def handleOpt : Sexp → Option String
-  | .list [.atom "validate", k, t, b] => do
-    let kind ← kindOf (← k.nat?)
-    let mid ← (match b with | .list (.atom "b" :: xs) => parseStmts xs | _ => none)
-    pure (prVerdict (validate kind t.natList mid))
-  | .list [.atom "apply", .list frames, pre, mid, post, v, k, n] => do
+  | .list [.atom "apply", .list frames, pre, mid, post, k, n, o, cl] => do
     let c ← parseFrames frames
     let pre ← parseList pre
     let mid ← parseList mid
     let post ← parseList post
-    let r ← parseRInfo v k n
-    let pinned := match applyAtPinned c pre mid post r with
+    let kind ← kindOf (← k.nat?)
+    let name ← parseName n
+    let opts : Opts ← (match o.natList with
+      | [a, b, d] => some { typeCheck := a != 0, prefixOK := b != 0, nameOK := d != 0 }
+      | _ => none)
+    let clash := (← cl.nat?) != 0
+    let pinned := match applyAtPinned c pre mid post kind name opts clash with
       | .ok _ => "ok" | .error e => prVerdict e
-    match applyAt c pre mid post r with
+    match applyAt c pre mid post kind name opts clash with
     | .ok q => pure s!"(ok {pinned} {blk q})"
     | .error e => pure s!"({prVerdict e} {pinned} -)"
   | .list [.atom "lower", routine, b] => do
@@ -188,6 +204,11 @@ def handleOpt : Sexp → Option String
     let p ← parseBlock b
     let r := run (oracleOf o.natList.toArray) p
     pure s!"({showList prEv r.ev} {prOut r.out})"
+  | .list [.atom "gencode", m, .list nodes] => do
+    let ns ← nodes.mapM fun x => match x with
+      | .list [n, b] => do pure ((← parseName n), (← b.nat?))
+      | _ => none
+    pure (showList prGName (genCodeNames (← m.nat?) ns))
   | .list [.atom "names", .list reqs] => do
     let rs ← reqs.mapM parseReq
     pure (showList prGName (uniqueNames [] rs))
